@@ -206,7 +206,7 @@ def main(argv):
     rnd = random.Random(ck.seed)
 
     # 1. the laws hold on the reference algebra (exhaustive, small constants)
-    mr, mo = (2, 2) if ck.quick else (3, 2)
+    mr, mo = (2, 2) if ck.quick else (3, 1)
     r = tlc_ok('Paths', cfg(mr, mo, 'mc'), timeout=3000)
     if r.invariant_violated:
         ck.machinery('law violated on the reference model:\n' + r.tail(40))
@@ -225,7 +225,7 @@ def main(argv):
                         hists.append([{'op': 'New', 'raw': raw, 'root': root,
                                        'destdir': dd, 'dirarg': da}])
     n_new = len(hists)
-    nsim, depth = (4000, 5) if ck.quick else (60000, 7)
+    nsim, depth = (4000, 5) if ck.quick else (20000, 7)
     g = tlc_ok('Paths_Gen', cfg(3, depth, 'gen'), workers=1,
                simulate='num=%d' % nsim, depth=depth + 1, seed=ck.seed,
                timeout=3000)
